@@ -7,6 +7,7 @@ from ..predabs import Vocab, PredAbs, A, Not, And, Or, T, translate, known_when,
 from ..rules import common
 
 TITLE = "Bounded queues are FIFO, lossless, capacity-bounded and race-free"
+TECHNIQUE = 'custom static analysis over clang-14 CFG facts: atomic memory-order tables per access site (release/acquire pairing), must-lockset, same-critical-section rule, condition-variable discipline'
 BQ = "iora::core::BlockingQueue"
 BQ_FILE = "iora/core/blocking_queue.hpp"
 RB_FILE = "iora/core/ring_buffer.hpp"
